@@ -1150,3 +1150,70 @@ func deadAccumulators(p *Program, fn *ssa.Function) (int, []Finding) {
 	}
 	return n, hits
 }
+
+// ---------------------------------------------------------------------------------------------
+// STALE-CAPACITY: s[:n] with n beyond len(s) exposes whatever the backing array held before
+// (elements of an earlier, longer value). The library never extends a slice into its spare
+// capacity — cap() is not used anywhere on the reference tree —; a reslice whose bound is cap(s)
+// or is compared with cap(s) is reported unless the exposed part is cleared (clear builtin) before
+// any other use in the same block.
+// ---------------------------------------------------------------------------------------------
+func staleCapacityReslices(p *Program, fn *ssa.Function) (int, []Finding) {
+	isCap := func(v ssa.Value) bool {
+		c, ok := stripConv(v).(*ssa.Call)
+		if !ok {
+			return false
+		}
+		b, ok := c.Call.Value.(*ssa.Builtin)
+		return ok && b.Name() == "cap"
+	}
+	var mentionsCap func(v ssa.Value, d int) bool
+	mentionsCap = func(v ssa.Value, d int) bool {
+		if v == nil || d > 4 {
+			return false
+		}
+		if isCap(v) {
+			return true
+		}
+		if b, ok := stripConv(v).(*ssa.BinOp); ok {
+			return mentionsCap(b.X, d+1) || mentionsCap(b.Y, d+1)
+		}
+		return false
+	}
+	n := 0
+	var hits []Finding
+	for _, b := range fn.Blocks {
+		for i, in := range b.Instrs {
+			sl, ok := in.(*ssa.Slice)
+			if !ok || sl.High == nil || !isSliceType(sl.X.Type()) {
+				continue
+			}
+			n++
+			viaCap := mentionsCap(sl.High, 0)
+			if !viaCap {
+				for _, g := range dominatingGuards(b) {
+					if g.Kind == "cmp" && ((sameValue(g.X, sl.High, 0) && mentionsCap(g.Y, 0)) || (sameValue(g.Y, sl.High, 0) && mentionsCap(g.X, 0))) {
+						viaCap = true
+					}
+				}
+			}
+			if !viaCap {
+				continue
+			}
+			cleared := false
+			for _, nx := range b.Instrs[i+1:] {
+				if c, ok := nx.(*ssa.Call); ok {
+					if bi, ok := c.Call.Value.(*ssa.Builtin); ok && bi.Name() == "clear" && len(c.Call.Args) == 1 {
+						cleared = true
+					}
+				}
+			}
+			if cleared {
+				continue
+			}
+			hits = append(hits, Finding{fn, sl.Pos(), "reslice-into-capacity(" + descValue(sl.X, 0) + ")",
+				funcKey(fn) + ": " + descValue(sl.X, 0) + " is resliced up to a bound taken from its capacity: the elements beyond its length are whatever the backing array held before (a value that was longer once), they become part of the result without being cleared"})
+		}
+	}
+	return n, hits
+}
